@@ -36,6 +36,9 @@ static void g_copy_src(void *x, void *o) { cstl_guarded_ptr_copy(o, x); }
 static void g_swap1(void *x, void *o) { cstl_guarded_ptr_swap(x, o); }
 static void g_swap2(void *x, void *o) { cstl_guarded_ptr_swap(o, x); }
 static void u_alloc(void *x, void *o) { (void)o; cstl_unique_ptr_alloc(x, 8, NULL, NULL); }
+static void u_alloc_huge(void *x, void *o) { (void)o; cstl_unique_ptr_alloc(x, SIZE_MAX - 64, NULL, NULL); }      /* an allocation that cannot be satisfied: the old pointer is still let go of first */
+static void u_swap_self(void *x, void *o) { (void)o; cstl_unique_ptr_swap(x, x); }
+static void g_swap_self(void *x, void *o) { (void)o; cstl_guarded_ptr_swap(x, x); }
 static void u_get_const(void *x, void *o) { (void)o; sink = (void *)cstl_unique_ptr_get_const(x); }
 static void u_get(void *x, void *o) { (void)o; sink = cstl_unique_ptr_get(x); }
 static void u_release(void *x, void *o) { cstl_xtor_func_t *f; void *p; (void)o; sink = cstl_unique_ptr_release(x, &f, &p); free((void *)sink); }
@@ -43,6 +46,10 @@ static void u_swap1(void *x, void *o) { cstl_unique_ptr_swap(x, o); }
 static void u_swap2(void *x, void *o) { cstl_unique_ptr_swap(o, x); }
 static void u_reset(void *x, void *o) { (void)o; cstl_unique_ptr_reset(x); }
 static void s_alloc(void *x, void *o) { (void)o; cstl_shared_ptr_alloc(x, 8, NULL); }
+static void s_alloc_huge(void *x, void *o) { (void)o; cstl_shared_ptr_alloc(x, SIZE_MAX - 64, NULL); }
+static void s_share_self(void *x, void *o) { (void)o; cstl_shared_ptr_share(x, x); }       /* the stray copy in BOTH argument positions */
+static void s_swap_self(void *x, void *o) { (void)o; cstl_shared_ptr_swap(x, x); }
+static void w_swap_self(void *x, void *o) { (void)o; cstl_weak_ptr_swap(x, x); }
 static void s_unique(void *x, void *o) { (void)o; isink = cstl_shared_ptr_unique(x); }
 static void s_get_const(void *x, void *o) { (void)o; sink = (void *)cstl_shared_ptr_get_const(x); }
 static void s_get(void *x, void *o) { (void)o; sink = cstl_shared_ptr_get(x); }
@@ -59,6 +66,7 @@ static void w_swap1(void *x, void *o) { cstl_weak_ptr_swap(x, o); }
 static void w_swap2(void *x, void *o) { cstl_weak_ptr_swap(o, x); }
 static void w_reset(void *x, void *o) { (void)o; cstl_weak_ptr_reset(x); }
 static void a_alloc(void *x, void *o) { (void)o; cstl_array_alloc(x, 4, 4); }
+static void a_alloc_huge(void *x, void *o) { (void)o; cstl_array_alloc(x, SIZE_MAX / 8, 4); }
 static void a_set(void *x, void *o) { (void)o; cstl_array_set(x, ext_buf, 8, sizeof(int)); }
 static void a_release(void *x, void *o) { void *b; (void)o; cstl_array_release(x, &b); sink = b; }
 static void a_data_const(void *x, void *o) { (void)o; sink = (void *)cstl_array_data_const(x); }
@@ -89,6 +97,11 @@ static struct entry { const char *fn; const char *pos; int kx, ko; call_t *call;
     { "cstl_array_slice", "a", KA, KA, a_slice_from, 1 }, { "cstl_array_slice", "s", KA, KA, a_slice_into, 0 }, { "cstl_array_slice", "a==s", KA, -1, a_slice_self, 1 },
     { "cstl_array_unslice", "s", KA, KA, a_unslice_from, 1 }, { "cstl_array_unslice", "a", KA, KA, a_unslice_into, 0 }, { "cstl_array_unslice", "s==a", KA, -1, a_unslice_self, 1 },
     { "cstl_array_reset", "a", KA, -1, a_reset, 0 },
+    /* the same entry points with an allocation that cannot be satisfied, and with the stray copy in both argument positions of a two-object call */
+    { "cstl_unique_ptr_alloc", "up (request that cannot be satisfied)", KU, -1, u_alloc_huge, 0 }, { "cstl_shared_ptr_alloc", "sp (request that cannot be satisfied)", KS, -1, s_alloc_huge, 0 },
+    { "cstl_array_alloc", "a (request that cannot be satisfied)", KA, -1, a_alloc_huge, 0 },
+    { "cstl_shared_ptr_share", "ex==n", KS, -1, s_share_self, 0 }, { "cstl_guarded_ptr_swap", "a==b", KG, -1, g_swap_self, 0 }, { "cstl_unique_ptr_swap", "up1==up2", KU, -1, u_swap_self, 0 },
+    { "cstl_shared_ptr_swap", "sp1==sp2", KS, -1, s_swap_self, 0 }, { "cstl_weak_ptr_swap", "wp1==wp2", KW, -1, w_swap_self, 0 },
 };
 #define NENT ((int)(sizeof TABLE / sizeof TABLE[0]))
 /* declared entry points that deliberately do not abort on a stray copy (they only write the guard and thereby re-stamp it, or never touch the pointer) */
